@@ -9,7 +9,7 @@ import sys
 
 from harness import core
 from harness.core import Atom
-from harness.gen.c30_templates import ADDRESS_TEMPLATES, TGen
+from harness.gen.c30_templates import ADDRESS_TEMPLATES, TGen, const_fold_templates
 from translate import set_iter_sites as tr_sites
 
 ID = "C30"
@@ -18,7 +18,7 @@ LEAN_MODULES = ["JinjaV.Props.C30", "JinjaV.Props.C30Sites"]
 LEVEL = "proof"
 TRUSTED = [
     "translator translate/set_iter_sites.py: static set typing is intra-procedural plus attribute/return types over "
-    "compiler.py, idtracking.py, ext.py, parser.py, nodes.py, meta.py, optimizer.py; a set that reaches an iteration through "
+    "compiler.py, idtracking.py, ext.py, parser.py, nodes.py, meta.py, optimizer.py, filters.py, tests.py, utils.py; a set that reaches an iteration through "
     "an untyped parameter or another module is not seen (the hash-seed experiment is the net for those)",
     "Model/Symbols.lean is a hand transcription of idtracking.Symbols and of enter_frame/leave_frame/dump_local_context/"
     "pop_assign_tracking/pull_dependencies, tied by the L-unit/L-code correspondence of this run; the rest of the code "
@@ -44,12 +44,14 @@ CLAIM = dict(
          "key of the ordered loads dict); dump_local_context, pop_assign_tracking (unsorted comprehension, next(iter()), "
          "sorted loop) and pull_dependencies emit the same lines (dump_stores/pop_assign/pull_deps_order_independent); hence "
          "cg_order_independent for whole frame trees. Props/C30Sites.lean: set_sites_covered — every iteration over a "
-         "statically set-typed expression in compiler/idtracking/ext/parser/nodes/meta/optimizer (read from the source on "
+         "statically set-typed expression in compiler/idtracking/ext/parser/nodes/meta/optimizer and in filters/tests/utils (filters "
+         "and tests run at compile time under constant folding) (read from the source on "
          "every run) is sorted, structurally order-insensitive, or one of two allow-listed sites (the modelled "
          "branch_update loop and the lookup-only parser tag table); a new unsorted iteration breaks the proof (the former "
          "set iteration in ext.i18n.parse, fixed by 73a6db1, would reappear as an uncovered site). Tie: random symbol programs on the real Symbols (refs/loads ordered, stores as sets) and frame "
          "programs on the real CodeGenerator vs the model; every generated template (tuple unpacking, branch stores, loops, "
-         "imports, macros with caller/varargs/kwargs, filters/tests, namespaces, blocks, call blocks, trans blocks) compiled "
+         "imports, macros with caller/varargs/kwargs, filters/tests, namespaces, blocks, call blocks, trans blocks) and every "
+         "registered filter and test applied to 12 constant operands with its argument combinations (folded at compile time) compiled "
          "raw under 4/16 hash seeds in subprocesses and twice in one process, in six environment configurations.",
     note="Trusted: Lean kernel; translator's set typing (intra-procedural); hand model tied by correspondence; the "
          "expression/statement visitors of the generator are covered by the inventory and the experiment, not by the model. "
@@ -341,6 +343,9 @@ envs, out = {}, []
 for it in items:
     env = envs.get(it["cfg"]) or envs.setdefault(it["cfg"], make(it["cfg"]))
     a = comp(env, it["src"])
+    if it.get("once"):      # constant-folding family: hash-seed comparison only
+        out.append({"src": a, "b": None, "c": None, "alt": None})
+        continue
     b = comp(env, it["src"])
     c = comp(make(it["cfg"]), it["src"])
     alt = None
@@ -424,6 +429,14 @@ def gen_items(ctx, n):
                          "{% from 'lib' import phi, chi as _psi, omega %}"})
     for j, src in enumerate(ADDRESS_TEMPLATES):
         items.append({"cfg": ["plain", "auto", "async"][j % 3], "src": src, "family": "address"})
+    # every registered filter / test on constant operands (folded at compile time): exhaustive over the registry, both tiers
+    from jinja2.filters import FILTERS
+    from jinja2.tests import TESTS
+    folds = const_fold_templates(FILTERS, TESTS)
+    for j, (kind, name, src) in enumerate(folds):
+        for cfg in (("plain", "auto")[j % 2],) if ctx.quick else ("plain", "auto"):
+            items.append({"cfg": cfg, "src": src, "family": f"constfold:{kind}:{name}", "once": True})
+    hits["const-fold-templates"] = len(folds) * (1 if ctx.quick else 2)
     return items, hits
 
 
@@ -433,13 +446,15 @@ def classify(it, a, b, alt_equal):
         return ADDRESS_KEY
     if it["cfg"].startswith("i18n") and alt_equal:
         return KNOWN_KEY
+    if it["family"].startswith("constfold:"):
+        return "C30:folded-constant:" + it["family"].split(":", 1)[1]
     return None
 
 
 def run_experiment(ctx, res, cov, boost):
     rng = ctx.rng("seeds")
     nseeds = ctx.pick(4, 16)
-    ntempl = ctx.pick(150, 900) * boost
+    ntempl = ctx.pick(120, 900) * boost
     seeds = [0] + sorted(rng.sample(range(1, 2 ** 32 - 1), nseeds - 1))
     items, hits = gen_items(ctx, ntempl)
     results = compile_batches(items, seeds)
@@ -457,6 +472,9 @@ def run_experiment(ctx, res, cov, boost):
             res.violate(key, what + "; the sources are equal once hexadecimal object addresses are masked: the optimizer folded a "
                              "constant expression through a generator / bound method whose str() holds its memory address "
                              "(regression of df6ea54, nodes._const_result)", replay)
+        elif key is not None and key.startswith("C30:folded-constant:"):
+            res.violate(key, what + f"; the {key.split(':')[2]} `{key.split(':')[3]}` applied to a constant operand is folded at compile "
+                             "time and its result is not a function of its arguments alone", replay)
         else:
             res.violate(f"C30:hash-seed-difference:{it['cfg']}" if replay["seeds"][0] != replay["seeds"][1]
                         else f"C30:same-process-difference:{it['cfg']}", what, replay)
@@ -519,7 +537,8 @@ def run(ctx, res):
                 "on the real CodeGenerator vs the model's lines. Experiment: grammar-generated templates (30 names, 35+17 "
                 "filters, 28 tests) in 6 environment configurations, each compiled raw under every hash seed in a subprocess "
                 "(one subprocess per seed), twice in the same environment and once in a fresh one; non-trivial = distinct "
-                "template; plus 9 fixed constant expressions of the folded-address family and fixed many-variable trans blocks",
+                "template; plus 9 fixed constant expressions of the folded-address family, fixed many-variable trans blocks, and one "
+                "template per (registered filter, argument combination) and per registered test over 12 constant operands",
         "samples": [items[0], items[1], items[-1]],
         **cov,
     })
